@@ -24,6 +24,7 @@
 From Coq Require Import List ZArith Bool Arith.
 From NT Require Import Sx Rose Nav NavProofs Format FormatProofs FormatDecode FormatNav CaseC16.
 From NT Require MiscPrint MiscPrintProofs.   (* part PRINT, imported at the end of this file *)
+From NT Require MiscRepr MiscRender MiscRenderProofs FsReprDecode.
 From NTGen Require Import Generated.
 Import ListNotations.
 
@@ -570,4 +571,34 @@ Example C16_print_ex :
   Ok (SStdout, [84; 60; 39; 110; 39; 62; 10; 9584; 9472; 9472; 32; 97; 10; 32; 32; 32; 32; 9584; 9472; 9472; 32; 98; 10]%Z) /\
   tree_print CONNECTORS DEFAULT_CONNECTOR_STYLE (fun t => i_name (rinfo t)) (tree_repr [84]%Z [110]%Z)
              [T 1 (I 0 0 0 true [97]%Z (DInt 1) None []) []] (StName [120]%Z) TiDefault [10%Z] true = Err EValue.
+Proof. vm_compute. split; reflexivity. Qed.
+
+(* ---- the default rendering templates (model theories/Forest/MiscRender.v, compared on every node by parts_misc.PRINT) ---- *)
+Import MiscRepr MiscRender MiscRenderProofs.
+
+(* repr=None: a plain tree shows repr(data) – for an ASCII str the quoted, escaped literal –, a typed tree "kind → str(data)";
+   the typed template on a node without kind raises *)
+Theorem C16_default_render : forall t given,
+  render_with templ_node t given = Some (data_repr t given) /\
+  render_with templ_typed t given = match rkind t with Some k => Some (k ++ [32; 8594; 32]%Z ++ i_name (rinfo t)) | None => None end.
+Proof. intros t given. exact (conj (render_node_default t given) (render_typed_default t given)). Qed.
+Print Assumptions C16_default_render.
+
+(* the shown text determines an ASCII str data value (quotes and backslashes included) *)
+Theorem C16_default_render_injective : forall a b ga gb,
+  i_isstr (rinfo a) = true -> i_isstr (rinfo b) = true -> is_ascii (i_name (rinfo a)) = true -> is_ascii (i_name (rinfo b)) = true ->
+  Forall FsReprDecode.cp_ok (i_name (rinfo a)) -> Forall FsReprDecode.cp_ok (i_name (rinfo b)) ->
+  render_with templ_node a ga = render_with templ_node b gb -> i_name (rinfo a) = i_name (rinfo b).
+Proof. exact render_node_default_injective. Qed.
+Print Assumptions C16_default_render_injective.
+
+(* the templates of the model are the class attributes of the source *)
+Theorem C16_default_render_templates_from_source :
+  NODE_DEFAULT_RENDER_REPR = templ_node /\ TYPED_DEFAULT_RENDER_REPR = templ_typed.
+Proof. split; reflexivity. Qed.
+Print Assumptions C16_default_render_templates_from_source.
+
+Example C16_default_render_ex :
+  render_with templ_node (T 1 (I 0 0 0 true [105; 116; 39; 115]%Z (DInt 1) None []) []) [] = Some [34; 105; 116; 39; 115; 34]%Z /\
+  render_with templ_typed (T 1 (I 0 0 0 true [97]%Z (DInt 1) (Some [107]%Z) []) []) [] = Some [107; 32; 8594; 32; 97]%Z.
 Proof. vm_compute. split; reflexivity. Qed.
